@@ -178,6 +178,23 @@ func buildChain(steps []ErrStep, nodes *[]*enode, excludedF1 *int) (*enode, *evi
 			if res.Error() != wantText {
 				return nil, evid.Failf("step %d: PrependError(%q, %T %q).Error() = %q, want prefix followed by the original text %q", i, msg, cur.err, cur.err.Error(), res.Error(), wantText)
 			}
+			// the result is a new error: reusing the original exception as a decode receiver later must not
+			// change what was returned
+			if ae, ok := cur.err.(*thrift.ApplicationException); ok {
+				savedT, savedM := ae.TypeID(), ae.Msg()
+				scratch := thrift.NewApplicationException(savedT+1, savedM+"~")
+				img := make([]byte, scratch.BLength())
+				scratch.FastWrite(img)
+				ae.FastRead(img)
+				textAfter := res.Error()
+				rest := thrift.NewApplicationException(savedT, savedM)
+				img2 := make([]byte, rest.BLength())
+				rest.FastWrite(img2)
+				ae.FastRead(img2) // put the original back
+				if textAfter != wantText {
+					return nil, evid.Failf("step %d: the error returned by PrependError(%q, application exception) changed to %q when the original exception was reused as a decode receiver", i, msg, textAfter)
+				}
+			}
 			n := &enode{err: res, kind: wantKind, step: i}
 			if wantKind != kPlain {
 				ti, ok := res.(typeIDer)
@@ -239,7 +256,9 @@ func checkErrChain(c ErrChainCase, cv *cov) (v *evid.Violation) {
 				targets = append(targets,
 					thrift.NewProtocolException(n.typeID, n.msg), thrift.NewApplicationException(n.typeID, n.msg), thrift.NewTransportException(n.typeID, n.msg),
 					&foreignErr{n.typeID, n.msg}, &foreignErr{n.typeID + 1, n.msg}, &foreignErr{n.typeID, n.msg + "x"},
-					thrift.NewProtocolException(n.typeID+1, n.msg), thrift.NewApplicationException(n.typeID, n.msg+" "), errors.New(n.msg))
+					thrift.NewProtocolException(n.typeID+1, n.msg), thrift.NewApplicationException(n.typeID, n.msg+" "), errors.New(n.msg),
+					// exceptions without a message: their text is the default text for the type id
+					thrift.NewApplicationException(n.typeID, ""), thrift.NewTransportException(n.typeID, ""), thrift.NewProtocolException(n.typeID, ""))
 			}
 		}
 		for _, n := range nodes {
@@ -301,7 +320,13 @@ func genErrStep(t *rapid.T, leaf bool) ErrStep {
 		s.Op = rapid.SampledFrom([]string{"wrapf", "wrapsame", "pewrap", "pewrap", "pewrap", "prepend", "prepend", "prepend"}).Draw(t, "wrap")
 	}
 	s.TypeID = rapid.OneOf(rapid.SampledFrom(namedCodes), rapid.Int32()).Draw(t, "typeid")
-	switch rapid.IntRange(0, 4).Draw(t, "msgKind") {
+	switch rapid.IntRange(0, 5).Draw(t, "msgKind") {
+	case 5: // texts that imitate the default text of an exception without a message, with a different numeral
+		id := int64(s.TypeID)
+		s.Msg = []byte(rapid.SampledFrom([]string{
+			fmt.Sprintf("unknown exception type [%d]", id), fmt.Sprintf("unknown exception type [%d]", id+1<<32), fmt.Sprintf("unknown exception type [%d]", id-1<<32),
+			fmt.Sprintf("unknown exception type [+%d]", id), fmt.Sprintf("unknown exception type [0%d]", id), fmt.Sprintf("unknown exception type [%d] ", id),
+		}).Draw(t, "fmtMsg"))
 	case 0:
 		s.Msg = nil
 	case 1:
